@@ -132,6 +132,9 @@ func genFill(r *Rng, id int, lo, hi int) Op {
 
 func genCount(r *Rng) int {
 	if r.P(1, 60) {
+		if r.P(1, 3) {
+			return r.Range(128, 300) // (more arguments than most containers have elements)
+		}
 		return r.Range(65, 140) // a long variadic list (bulk paths)
 	}
 	return []int{0, 1, 1, 1, 2, 2, 3, 3, 9}[r.Intn(9)]
